@@ -74,7 +74,7 @@ Print Assumptions C35_limit_exceeded_leaves_no_file.
 (* the three outcomes around the limit, on a streamed body of 20300 bytes with a 20000-byte file part *)
 Example C35_ex_limit :
   let c := Build_scfg true false in
-  let d := Build_reqd true true [20000]%Z true 20300 11 false in
+  let d := Build_reqd true true [20000]%Z true 20300 11 false 0 in
   option_map c_disk (crun c cinit [VDispatch d; VOp (OFormLimit 20300)]) = Some [20000%Z] /\   (* len = L *)
   option_map c_disk (crun c cinit [VDispatch d; VOp (OFormLimit 20299)]) = Some [] /\          (* len = L+1: parsed, then removed *)
   option_map c_disk (crun c cinit [VDispatch d; VOp (OFormLimit 20298)]) = Some [] /\          (* len = L+2: ReadForm fails *)
@@ -92,16 +92,29 @@ Print Assumptions C35_read_error_leaves_no_file.
 
 Example C35_ex_short_body :
   let c := Build_scfg false true in
-  let d := Build_reqd true true [16777217]%Z true 16777500 11 true in
+  let d := Build_reqd true true [16777217]%Z true 16777500 11 true 0 in
   option_map (fun s => (c_ph s, c_disk s)) (crun c cinit [VDispatch d]) = Some (CClosed, []) /\
   rmf 8192 [9000] true true [] = (None, []) /\ rmf 8192 [9000] true false [] = (Some [9000%Z], [9000%Z]).
+Proof. vm_compute. repeat split; reflexivity. Qed.
+
+(* Content-Encoding: a gzip body is never pre-parsed, MultipartForm decodes it and spills by the same rule;
+   any other encoding is refused; a chunked body (no Content-Length) is never pre-parsed either *)
+Example C35_ex_encodings :
+  let gz := Build_reqd true true [9000]%Z true 9300 11 false 1 in
+  let br := Build_reqd true true [9000]%Z true 9300 11 false 2 in
+  let ch := Build_reqd true false [9000]%Z true 9300 11 false 0 in
+  option_map c_disk (crun (Build_scfg true true) cinit [VDispatch gz; VOp OForm]) = Some [9000%Z] /\
+  option_map c_disk (crun (Build_scfg true true) cinit [VDispatch gz; VOp OForm; VReturn true]) = Some [] /\
+  option_map c_disk (crun (Build_scfg false true) cinit [VDispatch gz; VOp OForm]) = Some [] /\
+  option_map c_disk (crun (Build_scfg true true) cinit [VDispatch br; VOp OForm]) = Some [] /\
+  option_map c_disk (crun (Build_scfg true true) cinit [VDispatch ch; VOp OForm]) = Some [9000%Z].
 Proof. vm_compute. repeat split; reflexivity. Qed.
 
 (* non-vacuity: a streamed upload spills two parts into one temporary file, which is gone at the next dispatch;
    a timed-out request keeps its file *)
 Example C35_ex_history :
   let c := Build_scfg true false in
-  let big := Build_reqd true true [5000; 5000; 9000]%Z true 19500 11 false in
+  let big := Build_reqd true true [5000; 5000; 9000]%Z true 19500 11 false 0 in
   option_map c_disk (crun c cinit [VDispatch big; VOp OForm]) = Some [14000%Z] /\
   option_map c_disk (crun c cinit [VDispatch big; VOp OForm; VReturn true]) = Some [] /\
   option_map c_disk (crun c cinit [VDispatch big; VOp OForm; VOp ODrop]) = Some [] /\
